@@ -34,9 +34,19 @@ func VP_C08_Reset() {
 	first, _, _ := vpBranch("main")
 	vpOK(zzvp.Run("branch", "dev"))
 	c2a := zzvp.Bytes("c2a", 1, "")
-	zzvp.Assume(string(c2a) != string(c1a))
-	zzvp.WriteFile(w+"/"+f1, c2a)
-	vpOK(zzvp.Run("add", f1))
+	if zzvp.Choose(2) == 0 {
+		zzvp.Assume(string(c2a) != string(c1a))
+		zzvp.WriteFile(w+"/"+f1, c2a)
+		vpOK(zzvp.Run("add", f1))
+	} else {
+		// the second commit renames f1 (same bytes under another name)
+		f1b := vpPath("fr", 1, zzvp.Param("complen", 1))
+		zzvp.Assume(f1b != f1 && f1b != f2 && !vpHasDirPrefix(f2, f1b))
+		vpOK(zzvp.Run("rm", f1))
+		zzvp.WriteFile(w+"/"+f1b, c1a)
+		vpOK(zzvp.Run("add", f1b))
+		f1 = f1b
+	}
 	vpOK(zzvp.Run("commit", "-m", "c2"))
 	second, _, _ := vpBranch("main")
 	// perturb the work tree
